@@ -1,0 +1,101 @@
+//go:build verif
+
+// Contracts and ghost specification functions for deductive verification (govc).
+// This file is only compiled with the build tag "verif"; it adds no behaviour.
+
+package app
+
+import (
+	"net"
+	"time"
+)
+
+func implies(a, b bool) bool { return !a || b }
+
+func forall(lo, hi int, f func(int) bool) bool {
+	for i := lo; i < hi; i++ {
+		if !f(i) {
+			return false
+		}
+	}
+	return true
+}
+
+func exists(lo, hi int, f func(int) bool) bool {
+	for i := lo; i < hi; i++ {
+		if f(i) {
+			return true
+		}
+	}
+	return false
+}
+
+func assert(b bool) {
+	if !b {
+		panic("ghost assert failed")
+	}
+}
+
+// ---------------------------------------------------------------------------
+// C20: request limiter
+
+// tns is the instant of a time.Time in nanoseconds (uninterpreted in proofs).
+func tns(t time.Time) int { return int(t.UnixNano()) }
+
+// ipIn: the CIDR block contains the address (uninterpreted in proofs).
+func ipIn(n *net.IPNet, ip net.IP) bool { return n.Contains(ip) }
+
+// parseIP: result of net.ParseIP (uninterpreted in proofs).
+func parseIP(s string) net.IP { return net.ParseIP(s) }
+
+//@ uninterpreted tns
+//@ uninterpreted ipIn
+//@ uninterpreted parseIP
+
+//@ extern func (time.Time).Sub(t, u) (d)
+//@   ensures int(d) == tns(t) - tns(u)
+//@ extern func (time.Time).Add(t, d) (r)
+//@   ensures tns(r) == tns(t) + int(d)
+//@ extern func net.ParseIP(s) (ip)
+//@   ensures ip == parseIP(s)
+//@ extern func (*net.IPNet).Contains(n, ip) (r)
+//@   ensures r == ipIn(n, ip)
+
+// whitelisted: some configured CIDR block contains the client address.
+func whitelisted(il *IPRequestLimiter, ip string) bool {
+	return exists(0, len(il.cidrBlocks), func(k int) bool { return ipIn(il.cidrBlocks[k], parseIP(ip)) })
+}
+
+// intervalOver: the limiting interval that started at ResetTime has elapsed at instant now.
+func intervalOver(il *IPRequestLimiter, now time.Time) bool {
+	return tns(now)-tns(il.ResetTime) > int(il.Interval)
+}
+
+//@ guarded_by IPRequestLimiter.mux: Counters, ResetTime
+//@ lock_inv IPRequestLimiter.mux(il): il.Counters != nil
+
+//@ func (*IPRequestLimiter).dump
+//@   trusted
+//@   requires il != nil
+
+//@ func (*IPRequestLimiter).Inc
+//@   requires il != nil
+//@   ensures  reset: locked(intervalOver(il, now)) ==> il.ResetTime == now && nr == 1 && (all k string :: k != ip ==> il.Counters[k] == 0)
+//@   ensures  noreset: !locked(intervalOver(il, now)) ==> il.ResetTime == locked(il.ResetTime) && nr == locked(il.Counters[ip]) + 1 && (all k string :: k != ip ==> il.Counters[k] == locked(il.Counters[k]))
+//@   ensures  counted: il.Counters[ip] == nr && il.Counters != nil
+//@   ensures  quota: ok <==> (nr <= il.MaxNrRequests || whitelisted(il, ip))
+//@   ensures  maxreported: (whitelisted(il, ip) ==> maxNr == -1) && (!whitelisted(il, ip) ==> maxNr == il.MaxNrRequests)
+//@   assigns  il.Counters, il.ResetTime
+//@   allocates
+//@   noframe
+//@   loop 1 invariant 0 <= rangeidx && rangeidx <= len(il.cidrBlocks)
+//@   loop 1 invariant forall k in [0, rangeidx) :: !ipIn(il.cidrBlocks[k], parsedIP)
+//@   loop 1 invariant ok == (nr <= il.MaxNrRequests) && maxNr == il.MaxNrRequests
+
+//@ func (*IPRequestLimiter).Count
+//@   requires il != nil
+//@   ensures  result == il.Counters[ip]
+
+//@ func (*IPRequestLimiter).EndTime
+//@   requires il != nil
+//@   ensures  tns(result) == tns(il.ResetTime) + int(il.Interval)
